@@ -164,11 +164,18 @@ AssignField(raw, l, p, v) == Put(raw, AbsOff(l, p), Width(NodeAt(l, p)), v)
 (* Layout.const: "a constant that has the same value as a view with this layout that was        *)
 (* initialized with an all-zero value and had every field assigned to the corresponding value    *)
 (* in the order in which they appear in init".                                                  *)
+(* An entry <<position, v, cw, cs>> initialises a field of plain shape with a CONSTANT that has  *)
+(* its own shape (amaranth.hdl.Const(v, signed(cw) / unsigned(cw)), v in that shape's range): as *)
+(* in any assignment the field receives v converted to the field's shape (truncated, or zero- /  *)
+(* sign-extended according to the constant's own signedness, i.e. v modulo 2^width of the FIELD);*)
+(* exactly the field's bits are replaced, whatever the width of the constant.                    *)
+IsTyped(entry) == Len(entry) = 4
 RECURSIVE ConstVal(_, _), ConstFold(_, _, _, _)
 ConstFold(l, init, k, acc) ==
     IF k > Len(init) THEN acc
-    ELSE LET i == init[k][1] IN
-         ConstFold(l, init, k + 1, Put(acc, Off(l, i), Width(Sub(l, i)), ConstVal(Sub(l, i), init[k][2])))
+    ELSE LET i == init[k][1]
+             w == IF Mutant = "const_mask_from_init" /\ IsTyped(init[k]) THEN init[k][3] ELSE Width(Sub(l, i)) IN
+         ConstFold(l, init, k + 1, Put(acc, Off(l, i), w, ConstVal(Sub(l, i), init[k][2])))
 ConstVal(sh, init) == IF IsLeaf(sh) THEN init % Pow2(sh.w) ELSE ConstFold(sh, init, 1, 0)
 Pack(l, init) == ConstVal(l, init)
 
@@ -187,7 +194,19 @@ Unpack(sh, raw) ==
 RECURSIVE InitOK(_, _)
 InitOK(sh, init) ==
     IF IsLeaf(sh) THEN ValidValue(sh, init)
-    ELSE \A k \in 1..Len(init) : InitOK(Sub(sh, init[k][1]), init[k][2])
+    ELSE \A k \in 1..Len(init) :
+            IF IsTyped(init[k])
+            THEN /\ Sub(sh, init[k][1]).k = "int"
+                 /\ init[k][2] \in Range([w |-> init[k][3], s |-> init[k][4]])
+            ELSE InitOK(Sub(sh, init[k][1]), init[k][2])
+(* the same initialiser with every typed constant replaced by the in-range integer it converts to *)
+RECURSIVE Normalised(_, _)
+Normalised(sh, init) ==
+    IF IsLeaf(sh) THEN init
+    ELSE [k \in 1..Len(init) |->
+            LET f == Sub(sh, init[k][1]) IN
+            IF IsTyped(init[k]) THEN <<init[k][1], Reinterpret(init[k][2] % Pow2(f.w), f)>>
+            ELSE <<init[k][1], Normalised(f, init[k][2])>>]
 
 (* bits of the layout that belong to some leaf reached by Unpack *)
 RECURSIVE CoverMask(_), CoverFold(_, _, _)
@@ -250,16 +269,36 @@ SetToSeq(S) == LET RECURSIVE Go(_)
 (* the value of path j from a second row (the complemented pattern), so that overlapping fields   *)
 (* can be given unrelated values.  UnpackT is Unpack's shape.                                     *)
 IndexOf(ps, p) == CHOOSE j \in 1..Len(ps) : ps[j] = p
-RECURSIVE UnpackT(_, _, _), Fill(_, _, _, _), NegT(_, _)
+RECURSIVE UnpackT(_, _, _), Fill(_, _, _, _, _), NegT(_, _), TypT(_, _, _, _)
 UnpackT(sh, pre, ps) ==
     IF IsLeaf(sh) THEN IndexOf(ps, pre)
     ELSE IF sh.k = "union"
          THEN IF NF(sh) = 0 THEN <<>>
               ELSE LET i == Widest(sh) IN << <<i, UnpackT(Sub(sh, i), pre \o <<i>>, ps)>> >>
          ELSE [i \in 1..NF(sh) |-> <<i, UnpackT(Sub(sh, i), pre \o <<i>>, ps)>>]
-Fill(sh, t, row, crow) ==
+(* A template entry <<position, j, cw, cs>> stands for a typed constant of shape [cw, cs] whose bit *)
+(* pattern is taken from the complemented pattern starting at the field's offset (wide[j]), so a   *)
+(* constant wider than the field carries bits that differ from what the neighbouring fields get.  *)
+CVal(x, cw, cs) == IF cs THEN ToSigned(x % Pow2(cw), cw) ELSE x % Pow2(cw)
+Fill(sh, t, row, crow, wide) ==
     IF IsLeaf(sh) THEN (IF t > 0 THEN row[t] ELSE crow[0 - t])
-    ELSE [k \in 1..Len(t) |-> <<t[k][1], Fill(Sub(sh, t[k][1]), t[k][2], row, crow)>>]
+    ELSE [k \in 1..Len(t) |->
+            IF IsTyped(t[k]) THEN <<t[k][1], CVal(wide[t[k][2]], t[k][3], t[k][4]), t[k][3], t[k][4]>>
+            ELSE <<t[k][1], Fill(Sub(sh, t[k][1]), t[k][2], row, crow, wide)>>]
+(* every field of plain shape (at any depth) initialised by a constant d bits wider (narrower) than it *)
+TypT(sh, t, d, cs) ==
+    IF IsLeaf(sh) THEN t
+    ELSE [k \in 1..Len(t) |->
+            LET f == Sub(sh, t[k][1]) IN
+            IF f.k = "int" THEN <<t[k][1], t[k][2], Max2(f.w + d, IF cs THEN 1 ELSE 0), cs>>
+            ELSE <<t[k][1], TypT(f, t[k][2], d, cs)>>]
+RECURSIVE TypedVals(_, _)
+TypedVals(sh, init) ==      \* the values of the typed constants of a filled initialiser, in order of appearance
+    IF IsLeaf(sh) THEN <<>>
+    ELSE LET RECURSIVE Go(_)
+             Go(k) == IF k > Len(init) THEN <<>>
+                      ELSE (IF IsTyped(init[k]) THEN <<init[k][2]>> ELSE TypedVals(Sub(sh, init[k][1]), init[k][2])) \o Go(k + 1)
+         IN Go(1)
 NegT(sh, t) == IF IsLeaf(sh) THEN 0 - t ELSE [k \in 1..Len(t) |-> <<t[k][1], NegT(Sub(sh, t[k][1]), t[k][2])>>]
 RemoveAt(s, i) == [j \in 1..(Len(s) - 1) |-> IF j < i THEN s[j] ELSE s[j + 1]]
 Reverse(s) == [j \in 1..Len(s) |-> s[Len(s) + 1 - j]]
@@ -269,8 +308,13 @@ Reverse(s) == [j \in 1..Len(s) |-> s[Len(s) + 1 - j]]
 ExtraTemplates(l, ps) ==
     LET full == [i \in 1..NF(l) |-> <<i, UnpackT(Sub(l, i), <<i>>, ps)>>]
         mixed == [i \in 1..NF(l) |-> IF i % 2 = 0 THEN <<i, NegT(Sub(l, i), full[i][2])>> ELSE full[i]]
-    IN IF l.k = "union" THEN [i \in 1..NF(l) |-> <<full[i]>>] \o << <<>> >>
+        wide1 == TypT(l, full, 1, FALSE)      \* constants one bit wider, unsigned
+        wide4 == TypT(l, full, 4, TRUE)       \* four bits wider, signed (negative values sign-extend)
+        narrow == TypT(l, full, 0 - 1, FALSE) \* one bit narrower: the field's upper bit must still be replaced
+    IN IF l.k = "union"
+       THEN [i \in 1..NF(l) |-> <<full[i]>>] \o << <<>> >> \o [i \in 1..NF(l) |-> <<wide4[i]>>] \o [i \in 1..NF(l) |-> <<narrow[i]>>]
        ELSE [i \in 1..NF(l) |-> RemoveAt(full, i)] \o <<Reverse(full), mixed, Reverse(mixed), <<>>>>
+            \o <<wide1, Reverse(wide4), narrow, Reverse(narrow)>> \o [i \in 1..NF(l) |-> RemoveAt(wide4, i)]
 PathDesc(l, p) ==
     LET nd == NodeAt(l, p)
         par == NodeAt(l, SubSeq(p, 1, Len(p) - 1))
@@ -287,8 +331,10 @@ LayoutTable(l) ==
         rs == SetToSeq(PatternRaws(l))
         vals == [r \in 1..n |-> [j \in 1..Len(ps) |-> FieldOf(r - 1, l, ps[j])]]
         ets == ExtraTemplates(l, ps)
-        ex == {r \in PatternRaws(l) \cup {q \in RawsOf(l) : q % 13 = 3} :
-                  \A y \in 1..Len(ets) : InitOK(l, Fill(l, ets[y], vals[r + 1], vals[n - r]))}
+        wide(r) == [j \in 1..Len(ps) |-> (n - 1 - r) \div Pow2(AbsOff(l, ps[j]))]   \* complemented pattern from path j upwards
+        filled(r, y) == Fill(l, ets[y], vals[r + 1], vals[n - r], wide(r))
+        ex == {r \in PatternRaws(l) \cup {q \in RawsOf(l) : q % 37 = 5} :
+                  \A y \in 1..Len(ets) : InitOK(l, filled(r, y))}
         xs == SetToSeq(ex)
     IN [size   |-> Size(l),
         paths  |-> [j \in 1..Len(ps) |-> PathDesc(l, ps[j])],
@@ -303,7 +349,9 @@ LayoutTable(l) ==
         xtmpl  |-> ets,
         xraws  |-> xs,
         \* (row of the pattern xraws[x], second row of its complement)
-        xconst |-> [x \in 1..Len(xs) |-> [y \in 1..Len(ets) |-> Pack(l, Fill(l, ets[y], vals[xs[x] + 1], vals[n - xs[x]]))]],
+        xconst |-> [x \in 1..Len(xs) |-> [y \in 1..Len(ets) |-> Pack(l, filled(xs[x], y))]],
+        \* the values of the typed constants <<position, j, cw, cs>> of each template, in order of appearance
+        xcv    |-> [x \in 1..Len(xs) |-> [y \in 1..Len(ets) |-> TypedVals(l, filled(xs[x], y))]],
         \* assignments: asg[j][x][y] = the pattern after assigning asgvals[j][y] to path j of asgraws[x]
         asgraws |-> rs,
         asgvals |-> [j \in 1..Len(ps) |-> SetToSeq(AssignValues(NodeAt(l, ps[j])))],
@@ -405,7 +453,7 @@ PackUnpack == IsLayoutState =>
         disj == Disjoint(L) IN
     /\ tight => cm = 0..(Size(L) - 1)
     /\ \A raw \in PatternRaws(L) : /\ tab.packed[raw + 1] = Pack(L, Unpack(L, raw))
-                                     /\ Fill(L, tab.tmpl, tab.vals[raw + 1], tab.vals[raw + 1]) = Unpack(L, raw)
+                                     /\ Fill(L, tab.tmpl, tab.vals[raw + 1], tab.vals[raw + 1], <<>>) = Unpack(L, raw)
     /\ tight \/ disj => \A raw \in RawsOf(L) : tab.packed[raw + 1] = FromBitSet(BitSet(raw, Size(L)) \cap cm)
     /\ \A raw \in RawsOf(L) : tab.packed[raw + 1] \in RawsOf(L)
 
@@ -440,6 +488,18 @@ AssignFrame == IsLayoutState =>
             /\ tab.vals[r2 + 1][j] = Reinterpret(v % Pow2(w), nd)
             /\ (v \in rng => tab.vals[r2 + 1][j] = v)
         /\ \A raw \in {0, Pow2(Size(L)) - 1} : \A v \in vs : AssignField(raw, L, p, v) = Put(raw, o, w, v)
+
+(* a constant with its own shape used as a field initialiser behaves as the in-range integer it  *)
+(* converts to: the other fields are untouched whatever the width of the constant               *)
+TypedInit == IsLayoutState =>
+    LET ps == Paths(L)
+        n == Pow2(Size(L)) IN
+    \A x \in 1..Len(tab.xraws) : \A y \in 1..Len(tab.xtmpl) :
+        LET r == tab.xraws[x]
+            f == Fill(L, tab.xtmpl[y], tab.vals[r + 1], tab.vals[n - r],
+                      [j \in 1..Len(ps) |-> (n - 1 - r) \div Pow2(tab.paths[j].abs)]) IN
+        /\ tab.xconst[x][y] = Pack(L, Normalised(L, f))      \* tab.xconst[x][y] IS Pack(L, f)
+        /\ InitOK(L, Normalised(L, f))
 
 (* flag enumerations: closed under the operators, ~ is an involution on valid values, De Morgan  *)
 FlagLaws == IsEnumState /\ top.flag =>
